@@ -648,7 +648,7 @@ Proof.
       destruct (tfr_step_next st1 last (Some t) Hinv1) as [st' [G1 [G2 G3]]].
       rewrite Ev1 in G1, G2, G3. cbn [map app]. rewrite Eo. exists st'. auto.
     + (* found in segment si *)
-      rewrite (upd_nth_Some (fun _ => Some it') _ _ _ it' Ei eq_refl).
+      rewrite (upd_nth_Some (fun _ => Some it') _ _ _ it' Ei eq_refl). rewrite Eo.
       eexists. split; [reflexivity|]. cbn [map app hd_res tl]. split.
       * unfold tview. cbn [tf_seg tf_iters tf_offs]. rewrite (view_cons si _ _ it' o); [|apply nth_error_replace_eq; lia|exact Eo].
         rewrite view_replace_before by lia. reflexivity.
@@ -667,7 +667,7 @@ Theorem tfr_cursor_run : forall prog st last wm,
   tfr_run st prog = Some (run_spec (tview st) prog).
 Proof.
   induction prog as [|c prog IH]; intros st last wm Hinv Hnn Hfw; [reflexivity|].
-  inversion Hnn as [|? ? Hc Hnn']; subst. cbn [tfr_run run_spec tfr_step]. destruct c as [|t]; cbn [forward_from spec_step] in *.
+  inversion Hnn as [|? ? Hc Hnn']; subst. destruct c as [|t]; cbn [tfr_run run_spec tfr_step forward_from spec_step] in *.
   - destruct (tfr_step_next st last wm Hinv) as [st' [H1 [H2 H3]]]. rewrite H1.
     unfold spec_next in *. rewrite uncons_hd_tl in *. cbn [fst snd] in *.
     rewrite (IH st' _ wm H3 Hnn'); [rewrite H2; reflexivity|]. rewrite H2. exact Hfw.
@@ -687,7 +687,7 @@ Theorem tfr_cursor unadorned segs offs prog :
 Proof.
   intros Hwf Hhd Hnn Hfw.
   apply (tfr_cursor_run prog (tfr_init unadorned segs offs) None None); [|exact Hnn|exact Hfw].
-  constructor; cbn; auto; try lia. intros j Hj. lia.
+  constructor; cbn; auto; try lia; intros j Hj; lia.
 Qed.
 
 Example wf_segs_example : wf_segs [[0; 2]; [1]; []; [0; 3]] [0; 3; 5; 5].
